@@ -570,6 +570,69 @@ func (e *Engine) syncIntrinsic(name string, fn *ssa.Function) (handler, bool) {
 			}
 			return iface{}
 		}, true
+	case "(*sync.Map).Load", "(*sync.Map).Store", "(*sync.Map).LoadOrStore", "(*sync.Map).LoadAndDelete",
+		"(*sync.Map).Delete", "(*sync.Map).Swap", "(*sync.Map).Range", "(*sync.Map).Clear":
+		// sync.Map as an association list keyed by interface equality (one cooperative step per call)
+		op := name[len("(*sync.Map)."):]
+		return func(c *frame, f *ssa.Function, a []value) value {
+			ptr, ok := a[0].(*value)
+			if !ok || ptr == nil {
+				panic(targetPanic{"nil pointer dereference (sync.Map)"})
+			}
+			m := e.syncMaps[ptr]
+			if m == nil {
+				m = &mapV{kt: types.NewInterfaceType(nil, nil)}
+				e.syncMaps[ptr] = m
+			}
+			switch op {
+			case "Load":
+				if i := e.mapFind(m, a[1]); i >= 0 {
+					return tuple{copyVal(m.vals[i]), BoolC(true)}
+				}
+				return tuple{iface{}, BoolC(false)}
+			case "Store":
+				e.mapSet(m, a[1], a[2])
+				return nil
+			case "LoadOrStore":
+				if i := e.mapFind(m, a[1]); i >= 0 {
+					return tuple{copyVal(m.vals[i]), BoolC(true)}
+				}
+				e.mapSet(m, a[1], a[2])
+				return tuple{copyVal(a[2]), BoolC(false)}
+			case "Swap":
+				if i := e.mapFind(m, a[1]); i >= 0 {
+					old := m.vals[i]
+					m.vals[i] = copyVal(a[2])
+					return tuple{old, BoolC(true)}
+				}
+				e.mapSet(m, a[1], a[2])
+				return tuple{iface{}, BoolC(false)}
+			case "LoadAndDelete":
+				if i := e.mapFind(m, a[1]); i >= 0 {
+					old := m.vals[i]
+					e.mapDelete(m, a[1])
+					return tuple{old, BoolC(true)}
+				}
+				return tuple{iface{}, BoolC(false)}
+			case "Delete":
+				e.mapDelete(m, a[1])
+				return nil
+			case "Clear":
+				m.keys, m.vals = nil, nil
+				return nil
+			case "Range":
+				keys := append([]value{}, m.keys...)
+				vals := append([]value{}, m.vals...)
+				for i := range keys {
+					r := e.call(c, token.NoPos, a[1], []value{copyVal(keys[i]), copyVal(vals[i])}, nil)
+					if !e.Branch(r.(*Term)) {
+						break
+					}
+				}
+				return nil
+			}
+			return nil
+		}, true
 	case "sync.NewCond":
 		return func(c *frame, f *ssa.Function, a []value) value {
 			p := new(value)
